@@ -10,7 +10,17 @@
    Revision graph (self-contained; no shared library): revisions are 1..n, parents among smaller numbers or ghosts
    (ids > 100, referenced but absent); 0 is "null:".  A root revision has parents (null:,) in every parent map, the
    server's graph knows null: (with no parents) and therefore walks it; the client's `missing` set may contain
-   null: - these facts matter, see the +1 in the client code. *)
+   null: - these facts matter, see the +1 in the client code.
+
+   Ghost filled later: `filled` is a set of ghosts that are ghosts when the client fills its cache (so K's values
+   name them as absent parents and the client may have recorded them in `missing`) but are PRESENT in the server's
+   graph when the recipe is replayed (somebody pushed the revision in between; it is modelled as a root revision).
+   The intended set does not change: it is what the client has seen (K, resp. its own walk for the limited
+   variant); the filled revision and whatever lies behind it has NOT been seen by the client and must not be
+   walked.  The limited variant (the one RemoteRepository uses, depth 100) must hold under filling because every key
+   its own walk could not answer is a stop key.  The full variant drops `missing` from the stop keys by design and
+   is therefore not robust against filling (WitnessFullNotFillRobust in SearchRecipeMC exhibits it); for such cases
+   only the server's last line of defence is judged: the count check refuses the recipe (law "check"). *)
 EXTENDS Naturals, FiniteSets, Sequences
 
 NULL == 0
@@ -37,8 +47,11 @@ Bfs(know, pf(_), start, stop) ==
     LET r == BfsR(know, pf, stop, start, {}, {})
     IN [included |-> r.seen \ r.stopped, excludes |-> r.stopped]
 
-\* recreate_search_from_recipe: walk of the full graph; the check the server then makes
-ServerWalk(par, start, stop) == Bfs(Present(par), LAMBDA x : Parents(par, x), start, stop).included
+\* recreate_search_from_recipe: walk of the server's full graph (the graph plus the ghosts filled in meanwhile, each
+\* a root); the check the server then makes
+ParentsS(par, filled, x) == IF x \in filled THEN {NULL} ELSE Parents(par, x)
+ServerWalk(par, filled, start, stop) ==
+    Bfs(Present(par) \cup filled, LAMBDA x : ParentsS(par, filled, x), start, stop).included
 CountOk(walk, count) == Cardinality(walk) = count
 
 (* ---------------------------------------------------------------- search_result_from_parent_map, transcribed
@@ -50,7 +63,8 @@ Recipe(par, K, missing) ==
              stop |-> (rp \ K) \ missing,
              count |-> Cardinality(K) + (IF NULL \in rp /\ NULL \in missing THEN 1 ELSE 0)]
 
-(* ---------------------------------------------------------------- limited_search_result_from_parent_map *)
+(* ---------------------------------------------------------------- limited_search_result_from_parent_map
+   (takes missing_keys too, and does not use them: every key the client's own walk cannot answer stays a stop key) *)
 Children(par, K, p) == {k \in K : p \in Parents(par, k)}              \* invert_parent_map(K)[p]
 RECURSIVE HeadsR(_, _, _, _, _, _)
 HeadsR(par, K, current, walked, depth, heads) ==
@@ -59,7 +73,7 @@ HeadsR(par, K, current, walked, depth, heads) ==
              children == UNION {Children(par, K, p) : p \in current} \ walked
          IN HeadsR(par, K, children, walked \cup children, depth - 1, heads \cup childless)
 PossibleHeads(par, K, tips, depth) == HeadsR(par, K, tips, tips, depth, {})
-Limited(par, K, tips, depth) ==
+Limited(par, K, missing, tips, depth) ==
     IF K = {} THEN [start |-> {}, stop |-> {}, count |-> 0, keys |-> {}]
     ELSE LET heads == PossibleHeads(par, K, tips, depth)
              s == Bfs(K, LAMBDA x : Parents(par, x), heads, tips)     \* the client walks its own cache
@@ -68,34 +82,39 @@ Limited(par, K, tips, depth) ==
              keys |-> s.included]
 
 (* ---------------------------------------------------------------- laws on OBSERVED outcomes
-   c = [par (sequence of parent sequences), K, missing, kind, tips, depth]
+   c = [par (sequence of parent sequences), K, missing, kind, tips, depth, filled]
    o = [start, stop, count : what the real client function returned (after the real serialisation),
         keys : (limited) the keys the client's own walk covered,
         walk : the keys the real server-side walk included, ok : the server's count check passed] *)
 SetOf(s) == Rng(s)
 ParOf(c) == [i \in DOMAIN c.par |-> SetOf(c.par[i])]
 Intended(c, o) == IF c.kind = "full" THEN SetOf(c.K) ELSE SetOf(o.keys)
+\* the client-side guarantee is claimed for everything except the full variant under ghost filling (see above)
+Guaranteed(kind, filled) == ~(kind = "full" /\ filled # {})
 LawExact(c, o) == SetOf(o.walk) \ {NULL} = Intended(c, o) \ {NULL}    \* neither missing nor extra revisions
 LawCount(c, o) == o.ok /\ o.count = Cardinality(SetOf(o.walk))         \* the server's count check succeeds
-LawNames == <<"exact", "count">>
-Law(n, c, o) == CASE n = "exact" -> LawExact(c, o) [] n = "count" -> LawCount(c, o)
+LawCheck(c, o) == o.ok <=> (o.count = Cardinality(SetOf(o.walk)))      \* ... and it is an exact check
+LawNames == <<"exact", "count", "check">>
+Law(n, c, o) == CASE n = "exact" -> Guaranteed(c.kind, SetOf(c.filled)) => LawExact(c, o)
+                  [] n = "count" -> Guaranteed(c.kind, SetOf(c.filled)) => LawCount(c, o)
+                  [] n = "check" -> LawCheck(c, o)
 Failed(c, o) == {n \in Rng(LawNames) : ~Law(n, c, o)}
 
 \* what the specification says the outcome is (sets)
-SpecOutS(par, kind, K, missing, tips, depth) ==
-    LET r == IF kind = "full" THEN Recipe(par, K, missing) ELSE Limited(par, K, tips, depth)
-        walk == ServerWalk(par, r.start, r.stop)
+SpecOutS(par, kind, K, missing, tips, depth, filled) ==
+    LET r == IF kind = "full" THEN Recipe(par, K, missing) ELSE Limited(par, K, missing, tips, depth)
+        walk == ServerWalk(par, filled, r.start, r.stop)
     IN [start |-> r.start, stop |-> r.stop, count |-> r.count, keys |-> IF kind = "full" THEN K ELSE r.keys,
         walk |-> walk, ok |-> CountOk(walk, r.count)]
-SpecOut(c) == SpecOutS(ParOf(c), c.kind, SetOf(c.K), SetOf(c.missing), SetOf(c.tips), c.depth)
+SpecOut(c) == SpecOutS(ParOf(c), c.kind, SetOf(c.K), SetOf(c.missing), SetOf(c.tips), c.depth, SetOf(c.filled))
 \* the property on the specification's own outcome (design check)
 HoldsOn(s) == s.walk \ {NULL} = s.keys \ {NULL} /\ s.ok
-SpecHolds(c) == HoldsOn(SpecOut(c))
+SpecHolds(c) == Guaranteed(c.kind, SetOf(c.filled)) => HoldsOn(SpecOut(c))
 \* observation = specification (drift)
 Conforms(c, o) == LET s == SpecOut(c) IN
                   /\ SetOf(o.start) = s.start /\ SetOf(o.stop) = s.stop /\ o.count = s.count
                   /\ SetOf(o.walk) = s.walk /\ o.ok = s.ok
                   /\ (c.kind = "limited" => SetOf(o.keys) = s.keys)
                   \* the server's walk of the OBSERVED recipe is the model's walk of it
-                  /\ SetOf(o.walk) = ServerWalk(ParOf(c), SetOf(o.start), SetOf(o.stop))
+                  /\ SetOf(o.walk) = ServerWalk(ParOf(c), SetOf(c.filled), SetOf(o.start), SetOf(o.stop))
 =============================================================================
